@@ -846,7 +846,7 @@ func (e *Engine) runConcurrent() {
 		idleSleeps = 0
 		e.stats.Decisions++
 		// optional clock jump as an extra action
-		if cfg.Jumps {
+		if cfg.Jumps && e.tapeIdx < len(e.plan.Tape) { // an exhausted tape reads as zeros, which would mean "jump" for ever
 			v := e.nextTape()
 			if v%5 == 0 {
 				d := jumpTable[int(v/5)%len(jumpTable)]
